@@ -308,6 +308,48 @@ def body_schedule(case, ctx):
     ctx.add("successful_swaps", float(ref_swaps.sum()))
 
 
+# ------------------------------------------------------------------ pairings and conservation on long ladders
+@st.composite
+def ladder_cases(draw):
+    n = draw(st.one_of(st.integers(6, 14), st.sampled_from([7, 9, 10, 11, 16])))
+    d = draw(st.integers(1, 2))
+    chains = [{"cls": "gibbs", "start_u": [draw(st.floats(-2, 2)) for _ in range(d)], "width_log": [0.0] * d, "display_progress": False} for _ in range(n)]
+    # a nearly flat density: almost every proposed exchange is accepted, so a chain named in two pairs duplicates / loses a point
+    target = {"kind": "gauss", "d": d, "mean": [0.0] * d, "chol": [[1e3 if i == j else 0.0 for j in range(d)] for i in range(d)]}
+    return {"seed": draw(st.integers(0, 2**31)), "d": d, "target": target, "chains": chains, "temps": draw(ladders(n)),
+            "pairings": draw(st.integers(50, 400)), "rounds": draw(st.integers(5, 30))}
+
+
+def body_ladder(case, ctx):
+    N = len(case["chains"])
+    leftovers3 = 0
+    with PT(build_chains(case)) as pt:
+        for k in range(case["pairings"]):
+            pairs = [tuple(int(v) for v in p) for p in pt.tight_pairs()]
+            flat = [i for p in pairs for i in p]
+            if len(set(flat)) != len(flat) or any(not (0 <= i < N) for i in flat) or any(i == j for i, j in pairs):
+                raise Violation("pairs-not-disjoint", f"N={N}: tight_pairs() call {k} returned {pairs}")
+            if len(pairs) != N // 2:
+                raise Violation("pairs-incomplete", f"N={N}: tight_pairs() call {k} returned {len(pairs)} pairs")
+            leftovers3 += sum(1 for i, j in pairs if abs(i - j) > 2) >= 2
+        start = sorted(tuple(np.asarray(c.get_last(), dtype=float)) for c in pt.return_chains())
+        att0 = pt.attempted_swaps.copy()
+        for rnd in range(case["rounds"]):
+            pt.swap()
+            att = pt.attempted_swaps - att0
+            att0 = pt.attempted_swaps.copy()
+            if np.any(att > 1) or np.any((att > 0).sum(axis=0) + (att > 0).sum(axis=1) > 1):
+                raise Violation("pairs-not-disjoint", f"N={N}: swap round {rnd} proposed pairs {[tuple(int(v) for v in p) for p in np.argwhere(att > 0)]}")
+            now = sorted(tuple(np.asarray(c.get_last(), dtype=float)) for c in pt.return_chains())
+            if now != start:
+                raise Violation("exchange-not-a-permutation", f"N={N}: after {rnd + 1} exchange rounds without steps the chains' current points are no longer "
+                                                              f"a permutation of the starting points (lost {sorted(set(start) - set(now))[:2]}, new {sorted(set(now) - set(start))[:2]})")
+        pt.shutdown()
+    ctx.nontrivial(N >= 7 and leftovers3 >= 1)
+    ctx.event(f"N={N}")
+    ctx.event("rounds-with->=2-far-pairs" if leftovers3 else "only-tight-pairs")
+
+
 SUBCHECKS = [
     Sub("swaps", lambda t: swap_cases(), body_swaps, quick=96, thorough=3000, shards_quick=16, shards_thorough=16, weight=60,
         rule=">= 1 accepted and >= 1 rejected exchange with N >= 3"),
@@ -315,4 +357,6 @@ SUBCHECKS = [
         rule="N >= 2 and an advance whose n is not a multiple of swap_interval"),
     Sub("schedule", lambda t: schedule_cases(), body_schedule, quick=32, thorough=1000, shards_quick=16, shards_thorough=16, weight=100,
         rule=">= 2 distinct delay schedules, >= 2 exchange rounds, N >= 2"),
+    Sub("ladder", lambda t: ladder_cases(), body_ladder, quick=48, thorough=1500, shards_quick=16, shards_thorough=16, weight=80,
+        rule="N >= 7 chains and a pairing round in which >= 2 pairs had to be formed from chains left over by the tight pairing"),
 ]
